@@ -8,6 +8,9 @@ Rules are phrased over this canonical form so that behaviour-preserving respelli
  N3  `if not T: A else: B`  ->  `if T: B else: A`;  `if a != b: A else: B` -> `if a == b: B else: A`
      (likewise `is not`, `not in`), for statements with a non-empty else and for conditional expressions
  N4  an `else: pass` arm is dropped
+ N5  a temporary with exactly one binding and one use, the use sitting at the head of the very next statement, is inlined
+     (`c = f(x); if c:` -> `if f(x):`)
+ N6  `v = []` directly followed by `for t in xs: [if c:] v.append(e)` -> `v = [e for t in xs if c]`
 
 Positions (lineno) are kept from the original nodes so that reports still point into the file.
 """
@@ -101,20 +104,100 @@ class _Norm(ast.NodeTransformer):
                     self._fold_blocks(fn, c)
 
     def _fold(self, fn, stmts):
+        out: list = []
+        i = 0
+        stmts = self._loops_to_comprehensions(fn, stmts)
+        while i < len(stmts):
+            s = stmts[i]
+            nx = stmts[i + 1] if i + 1 < len(stmts) else None
+            if (isinstance(s, ast.Assign) and len(s.targets) == 1 and isinstance(s.targets[0], ast.Name)
+                    and nx is not None and not _captured(fn, s.targets[0].id)):
+                v = s.targets[0].id
+                # N1: v = e; return v
+                if isinstance(nx, ast.Return) and isinstance(nx.value, ast.Name) and nx.value.id == v:
+                    out.append(ast.copy_location(ast.Return(s.value), s))
+                    i += 2
+                    continue
+                # N5: a temporary with one binding and one use, the use being in the very next statement
+                loads = [n for n in ast.walk(fn) if isinstance(n, ast.Name) and n.id == v and isinstance(n.ctx, ast.Load)]
+                stores = [n for n in ast.walk(fn) if isinstance(n, ast.Name) and n.id == v and not isinstance(n.ctx, ast.Load)]
+                if len(loads) == 1 and len(stores) == 1 and not isinstance(s.value, (ast.Yield, ast.YieldFrom, ast.Await)):
+                    head = _head_exprs(nx)
+                    if any(loads[0] is n for h in head for n in ast.walk(h)):
+                        _replace(nx, loads[0], s.value)
+                        i += 1
+                        continue
+            out.append(s)
+            i += 1
+        return out
+
+    @staticmethod
+    def _loops_to_comprehensions(fn, stmts):
+        """N6: `v = []` directly followed by `for t in xs: [if c:] v.append(e)`  ->  `v = [e for t in xs if c]`"""
         out = []
         i = 0
         while i < len(stmts):
             s = stmts[i]
             nx = stmts[i + 1] if i + 1 < len(stmts) else None
             if (isinstance(s, ast.Assign) and len(s.targets) == 1 and isinstance(s.targets[0], ast.Name)
-                    and isinstance(nx, ast.Return) and isinstance(nx.value, ast.Name)
-                    and nx.value.id == s.targets[0].id and not _captured(fn, s.targets[0].id)):
-                out.append(ast.copy_location(ast.Return(s.value), s))
-                i += 2
-                continue
+                    and _is_empty_list(s.value) and isinstance(nx, ast.For) and not nx.orelse):
+                v = s.targets[0].id
+                conds = []
+                body = nx.body
+                while len(body) == 1 and isinstance(body[0], ast.If) and not body[0].orelse:
+                    conds.append(body[0].test)
+                    body = body[0].body
+                if (len(body) == 1 and isinstance(body[0], ast.Expr) and isinstance(body[0].value, ast.Call)
+                        and isinstance(body[0].value.func, ast.Attribute) and body[0].value.func.attr == 'append'
+                        and isinstance(body[0].value.func.value, ast.Name) and body[0].value.func.value.id == v
+                        and len(body[0].value.args) == 1 and not body[0].value.keywords):
+                    elt = body[0].value.args[0]
+                    mentions = any(isinstance(n, ast.Name) and n.id == v for x in [elt, nx.iter, nx.target] + conds for n in ast.walk(x))
+                    if not mentions:
+                        comp = ast.ListComp(elt, [ast.comprehension(nx.target, nx.iter, conds, 0)])
+                        out.append(ast.copy_location(ast.Assign([ast.Name(v, ast.Store())], ast.copy_location(comp, nx)), nx))
+                        i += 2
+                        continue
             out.append(s)
             i += 1
         return out
+
+
+def _is_empty_list(e: ast.AST) -> bool:
+    return (isinstance(e, ast.List) and not e.elts) or (isinstance(e, ast.Call) and isinstance(e.func, ast.Name)
+                                                        and e.func.id == 'list' and not e.args and not e.keywords)
+
+
+def _head_exprs(st: ast.stmt):
+    """the expressions a statement evaluates before anything else of it runs"""
+    if isinstance(st, (ast.If, ast.While)):
+        return [st.test]
+    if isinstance(st, ast.Return) and st.value is not None:
+        return [st.value]
+    if isinstance(st, ast.Expr):
+        return [st.value]
+    if isinstance(st, ast.Assign):
+        return [st.value]
+    if isinstance(st, ast.AnnAssign) and st.value is not None:
+        return [st.value]
+    if isinstance(st, ast.For):
+        return [st.iter]
+    if isinstance(st, ast.Raise) and st.exc is not None:
+        return [st.exc]
+    return []
+
+
+def _replace(root: ast.AST, old: ast.AST, new: ast.AST):
+    for n in ast.walk(root):
+        for name, value in ast.iter_fields(n):
+            if value is old:
+                setattr(n, name, new)
+                return
+            if isinstance(value, list):
+                for k, x in enumerate(value):
+                    if x is old:
+                        value[k] = new
+                        return
 
 
 def normalize(tree: ast.Module) -> ast.Module:
